@@ -32,15 +32,17 @@ PKG = "yv-c06"
 
 # (profile, environment overrides of the bounds)
 GEN = {
-    "quick": [("lex", {"MAXTOK": 4}), ("cmd", {"MAXTOK": 6}), ("word", {"MAXUNITS": 2}),
-              ("struct", {"MAXTOK": 8}), ("wordall", {"MAXUNITS": 1}), ("hd", {"MAXTOK": 7})],
+    "quick": [("lex", {"MAXTOK": 4}), ("cmd", {"MAXTOK": 6}), ("word", {"MAXUNITS": 2}), ("hd", {"MAXTOK": 11}),
+              ("struct", {"MAXTOK": 8}), ("ctl", {"MAXTOK": 13}), ("wordall", {"MAXUNITS": 1})],
     "thorough": [("lex", {"MAXTOK": 5}), ("cmd", {"MAXTOK": 8}), ("wordall", {"MAXUNITS": 2}),
-                 ("struct", {"MAXTOK": 10}), ("hd", {"MAXTOK": 9}), ("word", {"MAXUNITS": 2})],
+                 ("struct", {"MAXTOK": 10}), ("hd", {"MAXTOK": 13}), ("ctl", {"MAXTOK": 16})],
 }
+# profiles whose derivations are also mutated (impl -> spec)
+MUTATED = {"quick": {"cmd", "struct", "ctl", "hd"}, "thorough": {"cmd", "struct", "ctl", "hd", "lex", "wordall"}}
 # (profile, MAXTOK, traces per worker)
 SIM = {
-    "quick": [("lex", 16, 150), ("hd", 14, 150), ("struct", 22, 100)],
-    "thorough": [("lex", 20, 3000), ("hd", 18, 3000), ("struct", 26, 2000), ("cmd", 18, 2000)],
+    "quick": [("lex", 16, 50), ("cmd", 14, 30)],
+    "thorough": [("lex", 20, 3000), ("hd", 18, 2000), ("struct", 26, 2000), ("cmd", 18, 2000), ("word", 12, 3000)],
 }
 # (alphabet, maximal length)
 SOUP = {
@@ -49,7 +51,8 @@ SOUP = {
 }
 VARIANTS = {"quick": 3, "thorough": 5}
 MUTANTS = {"quick": 1, "thorough": 3}
-RANDOM_SOUP = {"quick": 40000, "thorough": 1500000}
+MUT_EVERY = {"quick": 2, "thorough": 1}      # mutate every n-th derivation
+RANDOM_SOUP = {"quick": 20000, "thorough": 1500000}
 
 
 def _key(rec, fail):
@@ -67,6 +70,8 @@ def _key(rec, fail):
         "marks": marks,
         "portable": bool(rec.get("portable", False)),
         "text": text if len(text) <= 4000 else text[-4000:],
+        # the same without line continuations (for matching on the shape of a line)
+        "text_nc": (text if len(text) <= 4000 else text[-4000:]).replace("\\\n", ""),
     }
 
 
@@ -100,9 +105,9 @@ def _gen_job(wd, name, cfg, env, tier, simulate=None, depth=None, tool_seed=None
     n = vlib.count_lines(gen)
     vlib.log(f"[tlc] {name}: {r.distinct} states, {r.generated} generated, {n} lines, {r.wall:.1f}s")
     args = ["replay", "--in", gen, "--out", res, "--variants", VARIANTS[tier]]
-    want_mut = not soup and simulate is None
+    want_mut = name in MUTATED[tier]
     if want_mut:
-        args += ["--mutants", MUTANTS[tier], "--mut-out", mut]
+        args += ["--mutants", MUTANTS[tier], "--mut-every", MUT_EVERY[tier], "--mut-out", mut]
     t0 = time.time()
     vlib.run_harness(PKG, args, timeout=3000)
     fails, summary = [], None
@@ -184,7 +189,8 @@ def run(tier):
     for prof, env in GEN[tier]:
         jobs.append(dict(name=prof, cfg=f"MC_Syntax_{prof}.cfg", env=env))
     for prof, maxtok, traces in SIM[tier]:
-        jobs.append(dict(name=f"sim-{prof}", cfg=f"MC_Syntax_{prof}.cfg", env={"MAXTOK": maxtok},
+        jobs.append(dict(name=f"sim-{prof}", cfg=f"MC_Syntax_{prof}.cfg",
+                         env={"MAXTOK": maxtok, "MAXUNITS": 3},
                          simulate=traces, depth=400, tool_seed=seed))
     for alpha, maxlen in SOUP[tier]:
         jobs.append(dict(name=f"soup-{alpha}", cfg="MC_Syntax_soup.cfg", env={"SOUP": alpha, "MAXTOK": maxlen},
@@ -239,7 +245,7 @@ def run(tier):
                     for line in f:
                         out.write(line)
                 os.remove(r["mut"])
-    rej, opinion, info = _validate(mut_all)
+    rej, opinion, info = _validate(mut_all, shards=8 if tier == "thorough" else 6)
     mutants = info["events"]
     vlib.log(f"[p3] mutated derivations: {mutants} records validated by Trace_Syntax in {info['wall']:.1f}s "
              f"({opinion} well-formed per the token grammar), {len(rej)} rejected")
@@ -254,30 +260,35 @@ def run(tier):
     os.remove(mut_all)
 
     # impl -> spec: scripted-test corpus and random strings (totality, read-ahead, round trip)
-    corpus = os.path.join(wd, "corpus.trace.ndjson")
+    texts = os.path.join(wd, "texts.trace.ndjson")
     vlib.run_harness(PKG, ["corpus", "--dir", os.path.join(vlib.REPO, "yash-cli", "tests", "scripted_test"),
-                           "--out", corpus], timeout=3000)
-    rejc, _, infoc = _validate(corpus)
-    corpus_n = infoc["events"]
-    corpus_ok = sum(1 for r in vlib.read_ndjson(corpus) if r["out"] == "ok")
+                           "--out", texts], timeout=3000)
+    corpus_n = vlib.count_lines(texts)
+    corpus_ok = sum(1 for r in vlib.read_ndjson(texts) if r["out"] == "ok")
+    soupf = os.path.join(wd, "soup.ndjson")
+    vlib.run_harness(PKG, ["soup", "--n", RANDOM_SOUP[tier], "--out", soupf], timeout=3000)
+    soup_out = {}
+    with open(texts, "a") as out:
+        with open(soupf) as f:
+            for line in f:
+                o = json.loads(line)["out"]
+                soup_out[o] = soup_out.get(o, 0) + 1
+                out.write(line)
+    os.remove(soupf)
+    rejt, _, infot = _validate(texts, shards=8 if tier == "thorough" else 4)
+    soup_n = infot["events"] - corpus_n
+    rejc = [(r, w) for r, w in rejt if not re.match(r"s\d+$", r.get("id", ""))]
+    rejs = [(r, w) for r, w in rejt if re.match(r"s\d+$", r.get("id", ""))]
     vlib.log(f"[p3] scripted-test corpus: {corpus_n} inputs (files and embedded scripts, both parsing modes), "
-             f"{corpus_ok} parsed, validated in {infoc['wall']:.1f}s, {len(rejc)} rejected")
+             f"{corpus_ok} parsed; [soup] {soup_n} random strings {soup_out}; validated by Trace_Syntax in "
+             f"{infot['wall']:.1f}s, rejected: corpus {len(rejc)}, soup {len(rejs)}")
     for rec, why in rejc:
         _report(rep, rec, "roundtrip" if why == "roundtrip" else "totality" if why == "total" else why,
                 f"corpus input {rec.get('id')}")
-    os.remove(corpus)
-    soupf = os.path.join(wd, "soup.trace.ndjson")
-    vlib.run_harness(PKG, ["soup", "--n", RANDOM_SOUP[tier], "--out", soupf], timeout=3000)
-    soup_out = {}
-    for r in vlib.read_ndjson(soupf):
-        soup_out[r["out"]] = soup_out.get(r["out"], 0) + 1
-    rejs, _, infos = _validate(soupf)
-    vlib.log(f"[soup] random strings: {infos['events']} inputs {soup_out}, validated in {infos['wall']:.1f}s, "
-             f"{len(rejs)} rejected")
     for rec, why in rejs:
         _report(rep, rec, "roundtrip" if why == "roundtrip" else "totality" if why == "total" else why,
                 f"random string {rec.get('id')}")
-    os.remove(soupf)
+    os.remove(texts)
 
     rc = rep.finish()
     needed = ["t:simple", "t:comp", "t:func", "t:group", "t:sub", "t:for", "t:while", "t:until", "t:if", "t:case",
@@ -314,7 +325,7 @@ def run(tier):
         "mutants_well_formed": opinion,
         "corpus_inputs": corpus_n,
         "corpus_parsed_ok": corpus_ok,
-        "soup": {"random_strings": infos["events"], "outcomes": soup_out, "rejected": len(rejs)},
+        "soup": {"random_strings": soup_n, "outcomes": soup_out, "rejected": len(rejs)},
     }, time.time() - t0, violations=len(rep.violations), assumptions=[
         "trees are compared with locations erased; here-document bodies are re-supplied after the printed line",
         "round trip is checked in the default parsing mode (List::from_str and the command_line loop) and, for the "
